@@ -6,6 +6,7 @@ import SaModel.Lemmas.C03New
 import SaModel.Lemmas.C03Shape
 import SaModel.Lemmas.C03Faithful
 import SaModel.Lemmas.Utf8
+import SaModel.Lemmas.C03PXNew
 /-
 C03 — every produced array is a well-formed Arrow array of the declared field.
 
@@ -357,22 +358,71 @@ theorem runRows_builtFor (ext : Ext) (fields : List Field) (rows : List SVal) (r
     Lemmas.C03.BuiltFor (.struct (Fields.ofList fields)) false root :=
   Lemmas.C03.runRows_builtFor ext fields rows root hpush hm h
 
-/-- **C03 (partial), in the form closest to the final statement**: for fields whose Map types have exactly two entry
-children, every array `to_marrow` returns is a well-formed array of its field, one per field, all of one length.
-Interface hypotheses, each discharged by one `exact` after the merge with agent-refine:
-`hpush := Build.push_takeRest ext`, `hwfb` the refinement theorem; `hsound`/`hwfx` see `C03_wf_root_partial`. -/
+/-- **offsets and UTF-8, unconditionally.**  `PX` (bytes builders: offsets start at 0, never decrease, end at
+`data.length`, stay ≤ i32/i64 max, every Utf8/LargeUtf8 slot valid UTF-8; list/map offsets ≤ i32/i64 max) is
+preserved by every push — no assumption on the value, on `Ext`, or on any other invariant — and holds of fresh
+builders; so it holds after any accepted sequence of rows. -/
+theorem push_PX (ext : Ext) (x : SVal) (b b' : B) (h : push ext b x = .ok b') (hp : Lemmas.C03.PX b) :
+    Lemmas.C03.PX b' :=
+  Lemmas.C03.push_PX ext x b b' h hp
+
+theorem runRows_PX (ext : Ext) (fields : List Field) (rows : List SVal) (root : B)
+    (h : runRows ext fields rows = .ok root) : Lemmas.C03.PX root :=
+  Lemmas.C03.runRows_PX ext fields rows root h
+
+theorem SchemaOKFs_ofList : ∀ (fields : List Field), (∀ f ∈ fields, Lemmas.C03.SchemaOKF f) →
+    Lemmas.C03.SchemaOKFs (Fields.ofList fields)
+  | [], _ => trivial
+  | f :: r, h => by
+    simp only [Fields.ofList, Lemmas.C03.SchemaOKFs]
+    exact ⟨h f (by simp), SchemaOKFs_ofList r (fun g hg => h g (by simp [hg]))⟩
+
+/-- everything the physical layer needs to know about the final builder state, from the interface hypotheses -/
+theorem root_facts (ext : Ext) (fields : List Field) (rows : List SVal) (root : B)
+    (hmap : ∀ f ∈ fields, Lemmas.C03.Map2F f) (hschema : ∀ f ∈ fields, Lemmas.C03.SchemaOKF f)
+    (hpush : ∀ (x : SVal) (b b' : B), push ext b x = .ok b' → takeRest b' = takeRest b)
+    (hw : WFB root) (hstrict : Lemmas.C03.StrictDict root) (hrun : runRows ext fields rows = .ok root) :
+    Lemmas.C03.BuiltFor (.struct (Fields.ofList fields)) false root ∧ Lemmas.C03.Faithful root ∧
+      Lemmas.C03.Sound root ∧ Lemmas.C03.PX root := by
+  have hb := runRows_builtFor ext fields rows root hpush hmap hrun
+  have hshape := Lemmas.C03.BuiltFor_ShapeOK root _ _ hb (by
+    simp only [Lemmas.C03.SchemaOK]; exact SchemaOKFs_ofList fields hschema)
+  have hf := Lemmas.C03.Faithful_of_strict root hstrict hshape
+  exact ⟨hb, hf, Lemmas.C03.Faithful_Sound root hw hf, runRows_PX ext fields rows root hrun⟩
+
+/-- **C03 (partial), in the form closest to the final statement.**  For fields whose Map types have exactly two entry
+children (`Map2F`), without `FixedSizeBinary(0)` and with integer dictionary keys (`SchemaOKF`): every array
+`to_marrow` returns is a well-formed array of its field (`Spec.WF`), there is one per field, and all have the same
+number of rows.
+
+Proved here: the whole physical layer, shape preservation modulo `push_takeRest`, offsets ≤ i32/i64 max and UTF-8 of
+Utf8/LargeUtf8 columns (`runRows_PX`, unconditional).  Interface hypotheses, each discharged by one `exact` after the
+merge with agent-refine:
+  * `hpush   := Build.push_takeRest ext`                       (Lemmas/C10TakePush.lean)
+  * `hwfb`    the refinement theorem (`WFB` is preserved by `push`, holds of the fresh root)
+  * `hstrict` the strict dictionary clause of that `WFB` (`StrictDict`: a recursion over `WFB`)
+and what stays assumed about the final state:
+  * `hrest`   `WFXrest root`: leaf values within the physical range of their type (integers: `tryInto`; float bit
+              patterns < 2^16/2^32/2^64: a property of `Basic/Float.lean` and of well-formed `SVal` floats; temporal
+              values parsed by `Ext`: within i32/i64), and Utf8View slots valid UTF-8 (needs buffers < 4 GiB). -/
 theorem C03_wf_partial (ext : Ext) (fields : List Field) (rows : List SVal) (arrs : List Arr)
-    (hmap : ∀ f ∈ fields, Lemmas.C03.Map2F f)
+    (hmap : ∀ f ∈ fields, Lemmas.C03.Map2F f) (hschema : ∀ f ∈ fields, Lemmas.C03.SchemaOKF f)
     (hpush : ∀ (x : SVal) (b b' : B), push ext b x = .ok b' → takeRest b' = takeRest b)
     (hwfb : ∀ root, runRows ext fields rows = .ok root → WFB root)
-    (hsound : ∀ root, runRows ext fields rows = .ok root → Lemmas.C03.Sound root)
-    (hwfx : ∀ root, runRows ext fields rows = .ok root → Lemmas.C03.WFX root)
+    (hstrict : ∀ root, runRows ext fields rows = .ok root → Lemmas.C03.StrictDict root)
+    (hrest : ∀ root, runRows ext fields rows = .ok root → Lemmas.C03.WFXrest root)
     (h : toMarrow ext fields rows = .ok arrs) :
     arrs.length = fields.length ∧
     ∃ n : Nat, ∀ (j : Nat) (f : Field) (a : Arr), fields[j]? = some f → arrs[j]? = some a →
-      WF f a = true ∧ (decodeAll a).length = n :=
-  C03_wf_root_partial ext fields rows arrs hwfb
-    (fun root hr => runRows_builtFor ext fields rows root hpush hmap hr) hsound hwfx h
+      WF f a = true ∧ (decodeAll a).length = n := by
+  refine C03_wf_root_partial ext fields rows arrs hwfb ?_ ?_ ?_ h
+  · intro root hr
+    exact (root_facts ext fields rows root hmap hschema hpush (hwfb root hr) (hstrict root hr) hr).1
+  · intro root hr
+    exact (root_facts ext fields rows root hmap hschema hpush (hwfb root hr) (hstrict root hr) hr).2.2.1
+  · intro root hr
+    exact Lemmas.C03.WFX_of_PX root
+      (root_facts ext fields rows root hmap hschema hpush (hwfb root hr) (hstrict root hr) hr).2.2.2 (hrest root hr)
 
 theorem ArrFields_toList_decode : ∀ (x : ArrFields),
     x.toList.map (fun ma => decodeAll ma.2) = (decodeFields x).map (·.2)
@@ -407,5 +457,16 @@ theorem toMarrow_decode_partial (ext : Ext) (fields : List Field) (rows : List S
       rw [e, this, hd, List.map_map]
       rfl
   | _ => simp [buildArrays, panic] at hba
+
+/-- the same with `Faithful` derived from the interface hypotheses (see `C03_wf_partial`) -/
+theorem toMarrow_decode_partial' (ext : Ext) (fields : List Field) (rows : List SVal) (arrs : List Arr)
+    (hmap : ∀ f ∈ fields, Lemmas.C03.Map2F f) (hschema : ∀ f ∈ fields, Lemmas.C03.SchemaOKF f)
+    (hpush : ∀ (x : SVal) (b b' : B), push ext b x = .ok b' → takeRest b' = takeRest b)
+    (hwfb : ∀ root, runRows ext fields rows = .ok root → WFB root)
+    (hstrict : ∀ root, runRows ext fields rows = .ok root → Lemmas.C03.StrictDict root)
+    (h : toMarrow ext fields rows = .ok arrs) :
+    ∃ root, runRows ext fields rows = .ok root ∧ arrs.map decodeAll = (decRoot root).map (·.map .ok) :=
+  toMarrow_decode_partial ext fields rows arrs hwfb
+    (fun root hr => (root_facts ext fields rows root hmap hschema hpush (hwfb root hr) (hstrict root hr) hr).2.1) h
 
 end SaModel.Props.C03
